@@ -13,7 +13,7 @@ from concurrent.futures import ThreadPoolExecutor
 import vcheck, conc_check
 
 # variant id -> (name, harness group, model configuration (moir, item counter, hp) or None = observable only
-#                [, model: "ms" = LV.Model.MSQueue (default), "rw" = LV.Model.RWQueue, "opt" = LV.Model.OptQueue])
+#                [, model: "ms" = LV.Model.MSQueue (default), "rw" = LV.Model.RWQueue, "opt" = LV.Model.OptQueue, "bq" = LV.Model.Basket])
 VARIANTS = {
     0: ("container::MSQueue<HP>", 0, (0, 0, 1)),
     1: ("container::MoirQueue<HP>", 0, (1, 0, 1)),
@@ -33,12 +33,12 @@ VARIANTS = {
     15: ("intrusive::MoirQueue<HP,item_counter>", 1, (1, 1, 1)),
     16: ("intrusive::MSQueue<HP,member_hook>", 1, (0, 0, 1)),
     17: ("intrusive::MoirQueue<DHP,member_hook>", 1, (1, 0, 0)),
-    20: ("container::BasketQueue<HP>", 2, None),
-    21: ("container::BasketQueue<DHP>", 2, None),
-    22: ("container::BasketQueue<HP,item_counter>", 2, None),
-    23: ("container::BasketQueue<HP,seq_cst>", 2, None),
-    24: ("intrusive::BasketQueue<HP>", 2, None),
-    25: ("intrusive::BasketQueue<DHP>", 2, None),
+    20: ("container::BasketQueue<HP>", 2, (0, 0, 1), "bq"),
+    21: ("container::BasketQueue<DHP>", 2, (0, 0, 0), "bq"),
+    22: ("container::BasketQueue<HP,item_counter>", 2, (0, 1, 1), "bq"),
+    23: ("container::BasketQueue<HP,seq_cst>", 2, (0, 0, 1), "bq"),
+    24: ("intrusive::BasketQueue<HP>", 2, (0, 0, 1), "bq"),
+    25: ("intrusive::BasketQueue<DHP>", 2, (0, 0, 0), "bq"),
     30: ("container::OptimisticQueue<HP>", 3, (0, 0, 1), "opt"),
     31: ("container::OptimisticQueue<DHP>", 3, (0, 0, 0), "opt"),
     32: ("container::OptimisticQueue<HP,item_counter>", 3, (0, 1, 1), "opt"),
@@ -334,7 +334,8 @@ def run(ctx):
     lin = build_lincheck(ctx)
     model = {"ms": conc_check.build_model(ctx, "Extract_MSQueue.v"),
              "rw": conc_check.build_model(ctx, "Extract_RWQueue.v", tag="model_rw"),
-             "opt": conc_check.build_model(ctx, "Extract_OptQueue.v", tag="model_opt")}
+             "opt": conc_check.build_model(ctx, "Extract_OptQueue.v", tag="model_opt"),
+             "bq": conc_check.build_model(ctx, "Extract_Basket.v", tag="model_bq")}
     exes = build_harnesses(ctx)
     ctx.log("built: coq %s (%.0fs), lincheck, model, %d harness groups" % ("ok" if res.ok else "FAILED", res.wall_s, len(exes)))
     stats = {}
@@ -425,9 +426,10 @@ def run(ctx):
                 break
         if not found:
             mk = model_kind(var)
-            mname = {"rw": "RWQueue", "opt": "OptQueue", "ms": "MSQueue"}[mk]
+            mname = {"rw": "RWQueue", "opt": "OptQueue", "ms": "MSQueue", "bq": "Basket"}[mk]
             corr = {"rw": "coq/Model/RWQueue.v vs cds/container/rwqueue.h, cds/sync/spinlock.h",
                     "opt": "coq/Model/OptQueue.v vs cds/intrusive/optimistic_queue.h, cds/container/optimistic_queue.h, cds/gc/hp.h (protect/retire)",
+                    "bq": "coq/Model/Basket.v vs cds/intrusive/basket_queue.h, cds/container/basket_queue.h, cds/gc/hp.h (protect/assign/copy/retire)",
                     "ms": "coq/Model/MSQueue.v vs cds/intrusive/msqueue.h, moir_queue.h, cds/container/msqueue.h, cds/gc/hp.h (protect/retire)"}[mk]
             ctx.violation("step correspondence between LV.Model.%s and %s no longer holds" % (mname, VARIANTS[var][0]),
                           {"correspondence": corr,
@@ -458,8 +460,8 @@ def run(ctx):
         "traces_validated_against_impl": sum(st["cases"] - st["diverged"] - st["overrun"] for st in pv.values() if st["level"] == "step"),
         "corpus_cases": len(corpus),
         "samples": samples,
-        "modelled": "cds::container / cds::intrusive MSQueue and MoirQueue (enqueue, dequeue over intrusive enqueue / do_dequeue / dispose_node; HP and DHP guard traffic; item counter); cds::container::RWQueue (enqueue, dequeue, spin locks); cds::container / cds::intrusive OptimisticQueue (enqueue, do_dequeue, fix_list)",
-        "not_modelled_observable_only": "BasketQueue, FCQueue (+elimination), RWQueue with the default allocator: histories decided by the verified lincheck only",
+        "modelled": "cds::container / cds::intrusive MSQueue and MoirQueue (enqueue, dequeue over intrusive enqueue / do_dequeue / dispose_node; HP and DHP guard traffic; item counter); cds::container::RWQueue (enqueue, dequeue, spin locks); cds::container / cds::intrusive OptimisticQueue (enqueue, do_dequeue, fix_list); cds::container / cds::intrusive BasketQueue (enqueue incl. basket insertion, do_dequeue incl. hop loop, free_chain)",
+        "not_modelled_observable_only": "FCQueue (+elimination), RWQueue with the default allocator: histories decided by the verified lincheck only (BasketQueue: step-level model, FIFO order decided by lincheck only)",
     })
     return ctx.finish(vcheck.STD_TRUSTED + [
         "hook layer: khizmax_libcds_verif::atomic<T>, baton scheduler, event log (hooks/include)",
@@ -468,5 +470,6 @@ def run(ctx):
         ["smr_safe: the model's allocator never reuses a node (conclusion of C01/C02 for gc::HP / gc::DHP)",
          "sequential consistency: memory_order arguments are not modelled (relaxed and seq_cst trait variants are both run)",
          "compare_exchange_weak never fails spuriously under the hook",
-         "BasketQueue, FCQueue: no Coq theorem in this check; lincheck on sampled schedules only",
+         "BasketQueue: Coq theorems cover chain well-formedness and no loss / no duplication; its FIFO order is decided by lincheck on sampled schedules only",
+         "FCQueue: theorem is partial (traces without the kernel model's lost event); lincheck on sampled schedules",
          "RWQueue step correspondence uses an allocator that frees nodes after the case (the default allocator variant is observable only)"])
